@@ -122,6 +122,7 @@ type Encoder struct {
 	ordLog     map[string][]ssa.Instruction
 	ordSeed    map[string][]ssa.Instruction
 	loopMapKeys map[string]string
+	mapPrev, mapHad *Val // during a map update's site assertions: the entry before the update
 	stable      map[*ssa.Alloc]bool
 }
 
